@@ -40,6 +40,7 @@ TAGS = {
     'finalizer': {'observer', 'stream'},
     'update_stats': {'observer', 'stream'},
     'user': {'user', 'stream'},
+    'nested_edit': {'user', 'stream', 'rowwise'},
     'iterable': {'source', 'restructure', 'stream'},
     'sources': {'source', 'restructure', 'stream'},
     'load_tuple': {'source', 'restructure', 'stream'},
@@ -386,6 +387,12 @@ def gen_user(rng, d, g):
     return {'step': 'user', 'param': param, 'kind': kind, 'mode': mode, 'marker': g.fresh('mk')}
 
 
+def gen_nested_edit(rng, d, g):
+    if not any(t in ('array', 'object') for r in d.res for n, t in r['fields']):
+        return None
+    return {'step': 'nested_edit', 'tag': g.fresh('seen')}
+
+
 def gen_iterable(rng, d, g):
     n = rng.choice([0, 1, 3, 7])
     return {'step': 'iterable', 'rows': [[9000 + 100 * g.n + i, 'it%d' % i] for i in range(n)], 'id_base': 0}
@@ -627,6 +634,17 @@ def build(spec, env):
         return [DF.finalizer(cb)]
     if s == 'update_stats':
         return [DF.update_stats(dict(spec['stats']))]
+    if s == 'nested_edit':
+        tag = spec['tag']
+
+        def f(row):
+            # a user step editing array / object cells in place
+            for v in row.values():
+                if isinstance(v, list):
+                    v.append(tag)
+                elif isinstance(v, dict):
+                    v[tag] = 1
+        return [f]
     if s == 'user':
         if spec['param'] == 'package':
             return [build_user(spec, env)]
